@@ -99,6 +99,7 @@ def memcpy_to(io, src, n):
     if io.data is not None:
         for k in range(n):
             io.data[io.loc + k] = src[k]
+    io.events.append(("memcpy", n))
 
 
 def store_double(io, d):
@@ -154,6 +155,27 @@ def encode_unsigned_varint(x, io):
     io.write_byte(x)
 
 
+def varint_len(x):
+    n = 1
+    lim = 128
+    while x >= lim and n < 10:
+        n += 1
+        lim *= 128
+    return n
+
+
+def encode_unsigned_varint_size(x, io):
+    """size-only twin of encode_unsigned_varint (same number of checked write_byte calls, content not stored)"""
+    n = varint_len(x)
+    if io.loc + n > io.nbytes:
+        io.dropped += 1
+        if io.strict_drop:
+            raise Dropped("varint of %r bytes at %r of %r" % (n, io.loc, io.nbytes))
+        io.loc = max(io.loc, min(io.nbytes, io.loc + n))
+        return
+    io.loc += n
+
+
 def zigzag_long(n):
     v = (n >> 1) ^ -(n & 1)
     return wrap(v, 64, True)
@@ -161,6 +183,41 @@ def zigzag_long(n):
 
 def long_zigzag(n):
     return ((n << 1) ^ (n >> 63)) & ((1 << 64) - 1)
+
+
+class LB(bytes):
+    """bytes object of symbolic length n (content opaque): for capacity obligations"""
+
+    def __new__(cls, n):
+        o = bytes.__new__(cls)
+        o.n = n
+        return o
+
+
+def size(b):
+    return b.n if isinstance(b, LB) else len(b)
+
+
+def len_str(x):
+    """len(str(x)) for the key-value list of a FileMetaData: the shortest text a list of {1: bytes, 2: bytes} dicts
+    can print as (printable ASCII content) - the smallest buffer the heuristic can pick, i.e. the worst case"""
+    if x is None:
+        return 4
+    total = 2
+    for k, e in enumerate(x):
+        total += 16 + size(e.get(1, b"")) + size(e.get(2, b"")) + (2 if k else 0)
+    return total
+
+
+class SizeBuf:
+    def __init__(self, n):
+        self.n = n
+
+
+class NPShim:
+    @staticmethod
+    def empty(n, dtype=None):
+        return SizeBuf(n)
 
 
 class MV:
